@@ -61,12 +61,89 @@ def programs(tier):
         lines.append("\t\tif unsafe.Alignof(v) != uintptr(rt.Align()) {\n\t\t\tbad += \" Alignof=\" + utoa(uint64(unsafe.Alignof(v))) + \"/reflect.Align=\" + utoa(uint64(rt.Align()))\n\t\t}")
         for j in range(len(fields)):
             lines.append("\t\tif o := uintptr(unsafe.Pointer(&v.F%d)) - uintptr(unsafe.Pointer(&v)); unsafe.Offsetof(v.F%d) != o || rt.Field(%d).Offset != o {\n\t\t\tbad += \" F%d:Offsetof=\" + utoa(uint64(unsafe.Offsetof(v.F%d))) + \"/addr=\" + utoa(uint64(o)) + \"/reflect=\" + utoa(uint64(rt.Field(%d).Offset))\n\t\t}" % (j, j, j, j, j, j))
+        # the same constants evaluated inside a generic instance (folded later, by a different path in the compiler)
+        lines.append("\t\tif gs, ga := gSizeAlign[S%d](); gs != unsafe.Sizeof(v) || ga != unsafe.Alignof(v) {\n\t\t\tbad += \" generic:Sizeof=\" + utoa(uint64(gs)) + \"/Alignof=\" + utoa(uint64(ga)) + \" const:\" + utoa(uint64(unsafe.Sizeof(v))) + \"/\" + utoa(uint64(unsafe.Alignof(v)))\n\t\t}" % i)
+        lines.append("\t\tif ga := gFieldAlign(v.F0); ga != unsafe.Alignof(v.F0) {\n\t\t\tbad += \" generic:Alignof(F0)=\" + utoa(uint64(ga)) + \"/\" + utoa(uint64(unsafe.Alignof(v.F0)))\n\t\t}")
         if kind == "c":
             nums = cn[i]
             lines.append("\t\tif unsafe.Sizeof(v) != %d || unsafe.Alignof(v) != %d%s {\n\t\t\tbad += \" differs-from-C(size %d align %d offsets %s)\"\n\t\t}" % (
                 nums[0], nums[1], "".join(" || unsafe.Offsetof(v.F%d) != %d" % (j, nums[2 + j]) for j in range(len(fields))), nums[0], nums[1], nums[2:]))
         lines.append("\t\tif bad == \"\" {\n\t\t\tbad = \" ok\"\n\t\t}\n\t\temit(\"S%d%s\", bad)" % (i, label.replace('"', "'")))
         main.append("\tcases = append(cases, func() {\n" + "\n".join(lines) + "\n\t})")
+    decls.append("""
+func gSizeAlign[T any]() (uintptr, uintptr) {
+	var v T
+	return unsafe.Sizeof(v), unsafe.Alignof(v)
+}
+
+func gFieldAlign[T any](v T) uintptr { return unsafe.Alignof(v) }
+
+// struct types built at run time: their descriptors are computed by the reflect package, not by the compiler
+func structOf(kinds string) reflect.Type {
+	var fs []reflect.StructField
+	for i, k := range kinds {
+		var t reflect.Type
+		switch k {
+		case 'b':
+			t = reflect.TypeOf(int8(0))
+		case 'h':
+			t = reflect.TypeOf(int16(0))
+		case 'w':
+			t = reflect.TypeOf(int32(0))
+		case 'q':
+			t = reflect.TypeOf(int64(0))
+		case 'f':
+			t = reflect.TypeOf(float32(0))
+		case 's':
+			t = reflect.TypeOf("")
+		case 'z':
+			t = reflect.TypeOf([0]uint64{})
+		case 'y':
+			t = reflect.TypeOf([0]int16{})
+		case 'e':
+			t = reflect.TypeOf(struct{}{})
+		case 'a':
+			t = reflect.TypeOf([3]int8{})
+		}
+		fs = append(fs, reflect.StructField{Name: "F" + string(rune('A'+i)), Type: t})
+	}
+	return reflect.StructOf(fs)
+}
+
+func describeRT(kinds string) string {
+	t := structOf(kinds)
+	s := "size=" + utoa(uint64(t.Size())) + " align=" + utoa(uint64(t.Align())) + " falign=" + utoa(uint64(t.FieldAlign())) + " off="
+	for i := 0; i < t.NumField(); i++ {
+		s += utoa(uint64(t.Field(i).Offset)) + ","
+	}
+	at := reflect.ArrayOf(3, t)
+	s += " arr3=" + utoa(uint64(at.Size()))
+	// fill an array of it through reflection and read it back: strides and offsets must be consistent
+	av := reflect.New(at).Elem()
+	for i := 0; i < 3; i++ {
+		for j := 0; j < t.NumField(); j++ {
+			f := av.Index(i).Field(j)
+			if f.Kind() >= reflect.Int8 && f.Kind() <= reflect.Int64 {
+				f.SetInt(int64(10*i + j + 1))
+			}
+		}
+	}
+	s += " read="
+	for i := 0; i < 3; i++ {
+		for j := 0; j < t.NumField(); j++ {
+			f := av.Index(i).Field(j)
+			if f.Kind() >= reflect.Int8 && f.Kind() <= reflect.Int64 {
+				s += itoa(f.Int()) + ","
+			}
+		}
+	}
+	return s
+}
+""")
+    alpha = "bhwqfszyea"
+    rts = [a for a in alpha] + [a + b for a in alpha for b in alpha] + [a + b + c for a in "bq" for b in "zyeh" for c in "bwz"]
+    for k in rts:
+        main.append("\tcases = append(cases, func() { emit(\"structof/%s\", describeRT(\"%s\")) })" % (k, k))
     src = PRELUDE.replace('import (\n\t"os"\n\t"unsafe"\n)', 'import (\n\t"os"\n\t"reflect"\n\t"unsafe"\n)') + "\nvar cases []func()\n\n" + "\n".join(decls) + "\n\nfunc main() {\n" + "\n".join(main) + "\n\trunAll(cases)\n}\n"
     return {"layout": src}
 
